@@ -28,7 +28,7 @@ CHECKS = {
     "C03": (
         "histmc", "model_checking",
         "explicit-state BFS over histories; every update form x selector x scope executed as a probe transition on a fresh replica, contents compared position by position with the reference model",
-        "At every reachable state every update form (static and callable; time/measurement/tags/fields/unset_*/combinations) x 13+ selectors x measurement scope, update_all and handle variants run on the real object; stored contents afterwards are compared position by position and the return value with the number of changed points.",
+        "At every reachable state every update form (static and callable; time/measurement/tags/fields/unset_* incl. one-shot iterators/combinations) x 13+ selectors x measurement scope, update_all and handle variants run on the real object; stored contents afterwards are compared position by position and the return value with the number of changed points.",
         E1NOTE, "4/C03",
     ),
     "C04": (
@@ -58,7 +58,7 @@ CHECKS = {
     "C08": (
         "histmc", "model_checking",
         "one explicit-state BFS per process time zone x instant cluster x storage x index path; integer-microsecond reference",
-        "For process TZ in {UTC, America/Los_Angeles, Australia/Lord_Howe, Asia/Kathmandu} and clusters of instants one microsecond apart (epoch, DST gap/fold instants, 1700, 1883, 2038, 2106, 2240): all depth-3 histories of inserts / updates (static and callable) / reopen over every representation of the instants (UTC, offsets, zoneinfo, naive local, gap/fold wall clock, None); every stored and returned time must be the exact instant as aware UTC, all six comparison operators and sorted order must agree with integer-microsecond arithmetic.",
+        "For process TZ in {UTC, America/Los_Angeles, Australia/Lord_Howe, Asia/Kathmandu, Europe/London} and clusters of instants one microsecond apart (epoch, DST gap/fold instants incl. a fold at offset zero, naive comparison values, 1700, 1883, 2038, 2106, 2240): all depth-3 histories of inserts / updates (static and callable) / reopen over every representation of the instants (UTC, offsets, zoneinfo, naive local, gap/fold wall clock, None); every stored and returned time must be the exact instant as aware UTC, all six comparison operators and sorted order must agree with integer-microsecond arithmetic.",
         E1NOTE + " Naive values are defined as local time through datetime.astimezone(), which the reference shares with the implementation.", "4/C08",
     ),
     "C09": (
@@ -75,26 +75,26 @@ CHECKS = {
     ),
     "C11": (
         "histmc", "model_checking",
-        "explicit-state BFS over histories where 75 faulting calls are executed at every state (a subset as BFS edges); contents and index compared with the reference after each raise",
-        "Every faulting call (non-Point inserts, non-Point at each position of insert_multiple, update callables raising at invocation k or returning invalid values, with a half-applied preceding attribute, invalid argument sets, handle variants) at every reachable state: contents must equal the reference (unchanged / plus prefix), a valid index must equal a rebuild, and states reached through faults get all further operations and the read/getter batteries.",
+        "explicit-state BFS over histories where ~90 faulting calls are executed at every state (a subset as BFS edges); contents and index compared with the reference after each raise",
+        "Every faulting call (non-Point inserts, non-Point at each position of insert_multiple, update callables raising at invocation k or returning invalid values, with a half-applied preceding attribute, a user test function inside the query raising on one tag value for update/remove/every read, invalid argument sets, handle variants) at every reachable state: contents must equal the reference (unchanged / plus prefix), a valid index must equal a rebuild, and states reached through faults get all further operations and the read/getter batteries.",
         E1NOTE, "4/C11",
     ),
     "C12": (
         "iofault", "fault_enumeration",
         "exhaustive crash-point enumeration: every raw I/O step boundary of every operation of every BFS-explored history is a crash image recovered by a fresh TinyFlux; real-kill conformance",
-        "All histories (BFS, depth<=4/5) over the crash alphabet on CSV; the seam numbers every raw call (open, write, truncate, fsync, close, replace, copy steps); the file bytes at every boundary are recovered by a fresh TinyFlux and must equal the contents before or after the operation (insert_multiple: prefix); 200+ boundaries re-validated by os._exit in a child process.",
+        "All histories (BFS, depth<=4/5) over the crash alphabet (incl. reopen, plain and through a with block) on CSV, also opened through a symbolic link; the seam numbers every raw call (open, write, truncate, fsync, close, replace, copy steps); the file bytes at every boundary are recovered by a fresh TinyFlux and must equal the contents before or after the operation (insert_multiple: prefix); 200+ boundaries re-validated by os._exit in a child process.",
         FNOTE, "4/C12",
     ),
     "C13": (
         "iofault", "fault_enumeration",
         "exhaustive single-fault injection: an OSError at every raw I/O step (before; after for fsync/close/flush) of every operation of every BFS-explored state, each followed by every continuation of a menu",
-        "For every (state, operation) of a BFS (depth<=3/4) and every recorded raw step an OSError is injected on a fresh replay; the error must reach the caller, every later read (index-served and scan-served, after a further insert, after reopen) must agree with the object's own storage or raise, and the closed file must decode to the old or new contents.",
+        "For every (state, operation) of a BFS (depth<=3/4; flush_on_insert on and off, plain and symlinked path) and every recorded raw step an OSError is injected on a fresh replay; the error must reach the caller, every later read (index-served and scan-served, after a further insert, after reopen) must agree with the object's own storage or raise, and the closed file must decode to the old or new contents.",
         FNOTE, "4/C13",
     ),
     "C14": (
         "univ", "exploration",
         "exhaustive matrix entry point x slot x wrong value x static/callable x selector x configuration x pre-state on the real API",
-        "Complete matrix (exhaustive:true) of API entry points x slots x wrongly-typed values, static and via callables, on 4 configurations and pre-state sizes 0-3 (index-assisted and scan branch): must raise ValueError/TypeError, leave contents unchanged, and all() (also of a reopened CSV copy) must return well-typed values only.",
+        "Complete matrix (exhaustive:true) of API entry points x slots x wrongly-typed values (wrong keys also paired with a None value), static and via callables, on 4 configurations and pre-state sizes 0-3 (index-assisted and scan branch): must raise ValueError/TypeError, leave contents unchanged, and all() (also of a reopened CSV copy) must return well-typed values only.",
         E3NOTE, "4/C14",
     ),
     "C15": (
@@ -112,7 +112,7 @@ CHECKS = {
     "C17": (
         "univ", "model_checking",
         "exhaustive enumeration of all ordered pairs of query terms of a closure of the term algebra; equality implies equal hash and equal truth vector",
-        "All ordered pairs of depth<=1 terms over a confusable vocabulary (24/60 atoms) and depth<=2 terms over 2/4 representatives: q1==q2 implies equal hash and identical evaluation on 378 points; commutativity of & and | for all ordered operand pairs (simple or compound); map-queries equal to nothing.",
+        "All ordered pairs of depth<=1 terms over a confusable vocabulary (35/72 atoms incl. the two folds of a repeated hour) and depth<=2 terms over 2/4 representatives: q1==q2 implies equal hash and identical evaluation on 381 points; commutativity of & and | for all ordered operand pairs (simple or compound); map-queries equal to nothing.",
         E3NOTE, "4/C17",
     ),
     "C18": (
